@@ -14,6 +14,36 @@ def known_class(dir_, fdir):
     return None
 
 
+def crafted_font(name):
+    """<font>~just=a,b,c,d : the level-0 justification record of subtable 0 names these glyph attributes (stretch, shrink, step, weight);
+    <font>~lineend : Silf flag 1 (line-end contextuals) set.  The file is (re)made under the build directory from the name alone."""
+    import struct
+    from props import fontkit as K
+    base, edit = name.split('~', 1)
+    out = os.path.join(vlib.BUILD, 'fuzzfonts', 'c19')
+    os.makedirs(out, exist_ok=True)
+    path = os.path.join(out, name.replace('~', '_').replace(',', '-').replace('=', '') + '.ttf')
+    if os.path.exists(path):
+        return path
+    data = open(os.path.join(vlib.REPO, 'tests/fonts', base), 'rb').read()
+    o, ln = K.font_tables(data)[b'Silf']
+    silf = bytearray(data[o:o + ln])
+    ver = struct.unpack('>I', silf[:4])[0]
+    p = 8 if ver >= 0x30000 else 4
+    sub = struct.unpack('>I', silf[p + 4:p + 8])[0]
+    hdr = sub + (8 if ver >= 0x30000 else 0)
+    if edit == 'lineend':
+        silf[hdr + 11] |= 1
+    elif edit.startswith('just='):
+        vals = [int(x) for x in edit[5:].split(',')]
+        if silf[hdr + 19] == 0:
+            return None
+        silf[hdr + 20:hdr + 24] = bytes(vals)
+    open(path + '.tmp', 'wb').write(K.replace_table(data, b'Silf', bytes(silf)))
+    os.rename(path + '.tmp', path)
+    return path
+
+
 def gen(chk, per_font):
     rng = chk.rng
     cases, meta = [], []
@@ -52,6 +82,27 @@ def gen(chk, per_font):
                                                     rng.randrange(4), rng.choice(('-', '-', '0', '1', '3')), rng.choice(('-', '-', '2', '1', '0'))))
             cases.append(S.case_line('c%d' % len(cases), font, S.encode(cps, 32), 32, dir_=d, ppm=rng.choice(('-', '12', '96')), ops=ops))
             meta.append(dict(font=font, dir=d, nb=len(breaks)))
+    # fonts whose justification level names other glyph attributes (weights, stretch and shrink of any sign and size) and widths at the
+    # edge of what a float holds: every call still has to return, with finite results
+    jf = 'charis_r_gr.ttf'
+    rep = S.repertoire(vlib.REPO, jf)
+    for i in range(per_font * 3):
+        vals = (58, 42, 43, 58) if i == 0 else tuple(rng.choice((40, 42, 43, 44, 58, 58, rng.randrange(0, 80))) for _ in range(4))
+        name = '%s~just=%s' % (jf, ','.join(map(str, vals)))
+        path = crafted_font(name)
+        if not path:
+            break
+        cps = [0x61, 0xB2, 0x30] if i == 0 else S.gen_text(rng, rep, 10)
+        if len(cps) < 2:
+            continue
+        n = len(cps)
+        breaks = sorted(rng.sample(range(1, n), min(rng.randrange(0, 3), n - 1)))
+        ops = ['dump', 'jtrace'] + ['break:%d' % b for b in breaks]
+        for k in range(rng.randrange(1, 4)):
+            wd = '3670' if i == 0 else rng.choice(('300', '1000', '3000', '5000', '20000', '-1', '3e38', '-3e38', 'nan', 'inf', '-inf', '1e30', '2147483648', '1e12'))
+            ops.append('just:%d:%s:%d:-:-' % (rng.randrange(0, len(breaks) + 1), wd, rng.randrange(4)))
+        cases.append(S.case_line('j%d' % len(cases), path, S.encode(cps, 32), 32, dir_=0, ppm=rng.choice(('-', '12', '96')), ops=ops))
+        meta.append(dict(font=name, dir=0, nb=len(breaks)))
     return cases, meta
 
 
